@@ -940,6 +940,11 @@ func (in *instrumenter) selectStmt(s *ast.SelectStmt) []ast.Stmt {
 		sw.Body.List = append(sw.Body.List, &ast.CaseClause{List: []ast.Expr{&ast.BasicLit{Kind: token.INT, Value: strconv.Itoa(idx)}}, Body: body})
 		idx++
 	}
+	if !hasDefault {
+		// a select whose cases all end in terminating statements is itself terminating;
+		// the switch needs a (never taken) default to be one too
+		sw.Body.List = append(sw.Body.List, &ast.CaseClause{Body: []ast.Stmt{&ast.ExprStmt{X: &ast.CallExpr{Fun: ast.NewIdent("panic"), Args: []ast.Expr{&ast.BasicLit{Kind: token.STRING, Value: strconv.Quote("simrt.Select chose no case")}}}}}})
+	}
 	args := []ast.Expr{ast.NewIdent(strconv.FormatBool(hasDefault))}
 	args = append(args, cases...)
 	sw.Tag = simCall("Select", args...)
